@@ -161,7 +161,7 @@ def run(ctx):
     )
     ctx.exhaustive = False
     specs = [s for s in all_specs(range(3), outliers=True) if s[0]]  # all-outlier trees crash the table writer: C12's finding
-    n_traces = 250 if ctx.quick else 2800
+    n_traces = 250 if ctx.quick else 2000
     cmds = [("map", "joint-likelihood"), ("map", "frequency"), ("topo", 1), ("topo", 2), ("topo", "all")]
     jobs, meta = [], []
     for ti in range(n_traces):
